@@ -87,6 +87,7 @@ type logMonitor struct {
 	log  []CB
 	tr   frugal.FTransport
 	gens *gens
+	rig  *rig
 }
 
 func ms(d time.Duration) int { return int(d / time.Millisecond) }
@@ -106,6 +107,9 @@ func (m *logMonitor) OnReopenFailed(prev uint, wait time.Duration) (bool, time.D
 }
 func (m *logMonitor) OnReopenSucceeded() {
 	m.gens.capture(m.tr)
+	if m.rig != nil {
+		m.rig.waitReader()
+	}
 	m.add(CB{"reopened", 0, 0})
 	m.base.OnReopenSucceeded()
 }
@@ -260,10 +264,18 @@ func newRig(cfg config) *rig {
 	if cfg.WithMonitor {
 		r.mon = &logMonitor{base: &frugal.BaseFTransportMonitor{MaxReopenAttempts: uint(cfg.MaxAttempts),
 			InitialWait: time.Duration(cfg.InitialWait) * time.Millisecond, MaxWait: time.Duration(cfg.MaxWait) * time.Millisecond},
-			tr: r.tr, gens: r.g}
+			tr: r.tr, gens: r.g, rig: r}
 		r.tr.SetMonitor(r.mon)
 	}
 	return r
+}
+
+// waitReader waits until the read loop started by Open is blocked in its first read: the histories
+// of LifeAbs take every step to quiescence (AdapterLife.StartAtomic).
+func (r *rig) waitReader() {
+	for dl := time.Now().Add(2 * time.Second); time.Now().Before(dl) && r.pipe.Waiters() == 0; {
+		time.Sleep(50 * time.Microsecond)
+	}
 }
 
 type proj struct {
@@ -326,6 +338,7 @@ func replayHistory(cfg config, idx int, hist []Step, cuts []int) {
 			resStr = classifyOpen(err)
 			if err == nil {
 				r.g.capture(r.tr)
+				r.waitReader()
 			}
 		case "openfail":
 			r.pipe.SetOpenErr(faultio.ErrInjected)
@@ -463,6 +476,7 @@ func race(rc raceCase, traceW *bufio.Writer) {
 		return
 	}
 	r.g.capture(r.tr)
+	r.waitReader()
 	ctl.Arm(rc.Hold, 0)
 	inject(r.pipe, rc.Fault, rc.Cut)
 	if !ctl.WaitParked(rc.Hold, 0, 2*time.Second) {
@@ -524,6 +538,7 @@ func race(rc raceCase, traceW *bufio.Writer) {
 		return
 	}
 	r.g.capture(r.tr)
+	r.waitReader()
 	inject(r.pipe, rc.Second, rc.Cut)
 	ok = false
 	for dl := time.Now().Add(2 * time.Second); time.Now().Before(dl); time.Sleep(300 * time.Microsecond) {
@@ -646,6 +661,42 @@ func natsHistories(path string) {
 	}
 }
 
+// staleReader is the schedule TLC finds with StartAtomic = FALSE: Open, Close and Open again before the
+// first generation's read loop has entered its first read. The old loop then reads the reopened transport.
+func staleReader() {
+	ctl := sched.New()
+	ctl.Install()
+	defer ctl.ReleaseAll()
+	r := newRig(config{})
+	ctl.Arm("life.rl.start", 0)
+	if classifyOpen(withDeadline(r.tr.Open)) != "ok" {
+		return
+	}
+	r.g.capture(r.tr)
+	if !ctl.WaitParked("life.rl.start", 0, 2*time.Second) {
+		res.Notes = append(res.Notes, "stale-reader scenario: read loop did not reach its start gate")
+		return
+	}
+	if classifyClose(withDeadline(r.tr.Close)) != "closed" {
+		return
+	}
+	ctl.Release("life.rl.start", 0) // disarm: the second generation's loop starts normally
+	// the released old loop is now racing; give the reopen a head start by reopening first
+	ctl.Arm("life.rl.start", 0)
+	if classifyOpen(withDeadline(r.tr.Open)) != "ok" {
+		return
+	}
+	r.g.capture(r.tr)
+	ctl.Release("life.rl.start", 0)
+	time.Sleep(5 * time.Millisecond)
+	readers := r.pipe.Waiters()
+	res.Runs++
+	if readers > 1 {
+		violate("stale-reader/open-close-open-before-first-read", fmt.Sprintf("Open, Close, Open before the first read loop reached its first read: %d read loops are now blocked reading the reopened transport (the stale one steals the new generation's frames; a failure it sees is dropped by the generation check)", readers), "open; close; open with the first read loop held at life.rl.start")
+	}
+	withDeadline(r.tr.Close)
+}
+
 func main() {
 	mode := flag.String("mode", "hist", "hist | race")
 	in := flag.String("in", "", "histories: one JSON array per line")
@@ -713,6 +764,8 @@ func main() {
 		}
 	case "natshist":
 		natsHistories(*in)
+	case "stale":
+		staleReader()
 	case "race":
 		var tw *bufio.Writer
 		if *trace != "" {
